@@ -879,6 +879,68 @@ func (c *Ctx) c16Kind() string {
 	return []string{"w", "w", "k1", "k2", "k3", "k7", "k4096"}[c.R.Intn(7)]
 }
 
+// c16LoginPairs: (server password, client password) pairs whose lengths differ by 1, 255, 256, 257, 512, 768, 1024
+// with one a prefix of the other, equal lengths differing in the first / last byte or in case, empty against 256
+// bytes, and lengths up to the frame maximum (4086). Bytes are non-periodic. Accepted iff byte-equal.
+func (c *Ctx) c16LoginPairs() [][2][]byte {
+	nonPeriodic := func(n int, salt byte) []byte {
+		b := make([]byte, n)
+		x := uint32(salt)*2654435761 + 12345
+		for i := range b {
+			x = x*1664525 + 1013904223
+			b[i] = byte(x>>24) ^ byte(i*7)
+		}
+		return b
+	}
+	var out [][2][]byte
+	add := func(srv, cli []byte) {
+		if len(cli) <= 4090 && len(srv) <= 5000 {
+			out = append(out, [2][]byte{srv, cli})
+		}
+	}
+	bases := [][]byte{nil, []byte("hunter2"), nonPeriodic(40, 1), nonPeriodic(256, 2), nonPeriodic(3000, 3)}
+	for bi, base := range bases {
+		for _, n := range []int{1, 255, 256, 257, 512, 768, 1024} {
+			var x []byte
+			switch (bi + n) % 3 {
+			case 0:
+				x = nonPeriodic(n, byte(n))
+			case 1:
+				x = make([]byte, n) // zero bytes
+			default:
+				x = c.c16Bytes(n)
+			}
+			long := append(append([]byte{}, base...), x...)
+			add(base, long) // the client extends the server's password
+			add(long, base) // the server's password extends the client's
+		}
+		add(base, base)
+	}
+	for _, n := range []int{1, 7, 256, 257, 4086} {
+		a := nonPeriodic(n, byte(n+9))
+		first := append([]byte{}, a...)
+		first[0] ^= 0x01
+		last := append([]byte{}, a...)
+		last[n-1] ^= 0x80
+		add(a, a)
+		add(a, first)
+		add(a, last)
+	}
+	add([]byte("Hunter2Password"), []byte("hunter2password"))
+	add([]byte("hunter2password"), []byte("HUNTER2PASSWORD"))
+	add(nil, nonPeriodic(256, 5))
+	add(nonPeriodic(256, 5), nil)
+	add(nil, make([]byte, 256))
+	add(nil, make([]byte, 512))
+	full := nonPeriodic(4086, 6)
+	add(full[:4086-256], full)
+	add(full, full[:4086-256])
+	add(full[:4086-1024], full)
+	add(full[:4086-2*256], full)
+	add(full[:4086-15*256], full)
+	return out
+}
+
 func genC16(c *Ctx) {
 	// --- WritePacket: layout ---
 	for _, n := range c16Lens {
@@ -1079,7 +1141,7 @@ func genC16(c *Ctx) {
 		case "acceptlogin":
 			arg = c.c16Bytes(c.R.Intn(12))
 			pw := arg
-			switch c.R.Intn(5) {
+			switch c.R.Intn(6) {
 			case 0:
 				pw = c.c16Bytes(c.R.Intn(12))
 			case 1:
@@ -1088,6 +1150,11 @@ func genC16(c *Ctx) {
 				}
 			case 2:
 				pw = append(append([]byte{}, arg...), 0)
+			case 3: // the client's password extends the server's by 256*k bytes
+				pw = append(append([]byte{}, arg...), c.c16Bytes(256*(1+c.R.Intn(4)))...)
+			}
+			if c.R.Intn(12) == 0 && len(pw) == len(arg) { // the server's password extends the client's by 256*k bytes
+				arg = append(append([]byte{}, pw...), c.c16Bytes(256*(1+c.R.Intn(4)))...)
 			}
 			typ := int32(3)
 			if c.R.Intn(5) == 0 {
@@ -1166,6 +1233,15 @@ func genC16(c *Ctx) {
 		// the excluded point: with ReqID = -1 a refused login looks like an accepted one (documents behaviour)
 		c16Sess(c, -1, pp[0], pp[1], mkSteps(-1, 1, true))
 	}
+	// prefix / extension pairs at length differences 1, 255, 256, 257, 512, 768, 1024, ... : AcceptLogin directly,
+	// a two-party session over net.Pipe, and (a subset) the real DialRCON against the library's server over TCP
+	loginPairs := c.c16LoginPairs()
+	for i, pp := range loginPairs {
+		srv, cli := pp[0], pp[1]
+		c16Op(c, "acceptlogin", 0, srv, c16Frame(c.c16Int(), 3, cli), []string{"w", "k7", "k4096"}[i%3], false)
+		r := int32(c.R.Int31())
+		c16Sess(c, r, cli, srv, mkSteps(r, 1, true))
+	}
 	for _, n := range []int{4085, 4086, 4087, 5000} {
 		pw := c.c16Bytes(n)
 		c16Sess(c, 77, pw, pw, mkSteps(77, 1, true))
@@ -1189,6 +1265,15 @@ func genC16(c *Ctx) {
 			if len(cpw) > 0 {
 				spw = append([]byte{}, cpw...)
 				spw[c.R.Intn(len(spw))] ^= byte(1 << uint(c.R.Intn(8)))
+			}
+		case 2:
+			if c.R.Intn(4) == 0 { // one password extends the other by 256*k bytes
+				ext := append(append([]byte{}, cpw...), c.c16Bytes(256*(1+c.R.Intn(4)))...)
+				if c.R.Intn(2) == 0 {
+					cpw = ext
+				} else {
+					spw = ext
+				}
 			}
 		}
 		c16Sess(c, r, cpw, spw, mkSteps(r, c.R.Intn(7), c.R.Intn(3) == 0))
@@ -1261,6 +1346,15 @@ func genC16(c *Ctx) {
 	for _, pp := range tcpPairs {
 		if tcpOK = c16TCP(c, pp[0], pp[1], []byte("list"), []byte("There are 0 players")); !tcpOK {
 			break
+		}
+	}
+	// the library's AcceptLogin behind the real DialRCON: prefix / extension pairs (every 4th in the quick tier)
+	for i, pp := range loginPairs {
+		if !tcpOK {
+			break
+		}
+		if c.Thorough() || i%4 == 0 {
+			tcpOK = c16TCP(c, pp[1], pp[0], []byte("list"), []byte("ok"))
 		}
 	}
 	if tcpOK && c.Thorough() {
